@@ -250,7 +250,10 @@ impl<T: ?Sized, R> RwLock<T, R> {
 }
 
 impl<T: ?Sized, R: RawRwLock> RwLock<T, R> {
-	pub fn scoped_read<'a, Ret>(&'a self, key: impl Keyable, f: impl Fn(&'a T) -> Ret) -> Ret {
+	// The closures of the scoped functions must accept a reference of any
+	// lifetime, so that the reference (or anything derived from it) cannot be
+	// returned out of the closure and outlive the lock.
+	pub fn scoped_read<Ret>(&self, key: impl Keyable, f: impl Fn(&T) -> Ret) -> Ret {
 		unsafe {
 			// safety: we have the key
 			self.raw_read();
@@ -271,10 +274,10 @@ impl<T: ?Sized, R: RawRwLock> RwLock<T, R> {
 		}
 	}
 
-	pub fn scoped_try_read<'a, Key: Keyable, Ret>(
-		&'a self,
+	pub fn scoped_try_read<Key: Keyable, Ret>(
+		&self,
 		key: Key,
-		f: impl Fn(&'a T) -> Ret,
+		f: impl Fn(&T) -> Ret,
 	) -> Result<Ret, Key> {
 		unsafe {
 			// safety: we have the key
@@ -298,7 +301,7 @@ impl<T: ?Sized, R: RawRwLock> RwLock<T, R> {
 		}
 	}
 
-	pub fn scoped_write<'a, Ret>(&'a self, key: impl Keyable, f: impl Fn(&'a mut T) -> Ret) -> Ret {
+	pub fn scoped_write<Ret>(&self, key: impl Keyable, f: impl Fn(&mut T) -> Ret) -> Ret {
 		unsafe {
 			// safety: we have the key
 			self.raw_write();
@@ -319,10 +322,10 @@ impl<T: ?Sized, R: RawRwLock> RwLock<T, R> {
 		}
 	}
 
-	pub fn scoped_try_write<'a, Key: Keyable, Ret>(
-		&'a self,
+	pub fn scoped_try_write<Key: Keyable, Ret>(
+		&self,
 		key: Key,
-		f: impl Fn(&'a mut T) -> Ret,
+		f: impl Fn(&mut T) -> Ret,
 	) -> Result<Ret, Key> {
 		unsafe {
 			// safety: we have the key
